@@ -55,7 +55,7 @@ def call_unknown(eng, st, name, args, kwargs, node):
     return [(st, fresh(short))]
 
 def contains_tracked(eng, node):
-    tracked = getattr(eng.reg, 'tracked_names', set())
+    tracked = getattr(getattr(eng.reg, 'current_unit', None), 'tracked', None) or getattr(eng.reg, 'tracked_names', set())
     for n in ast.walk(node):
         if isinstance(n, ast.Attribute) and n.attr in tracked: return n.attr
         if isinstance(n, ast.Name) and n.id in tracked: return n.id
